@@ -6,7 +6,10 @@ patch=/verif/seeded/$m/patch.diff
 [ -f /verif/seeded/$m/patch_on_fixed_tree.diff ] && patch=/verif/seeded/$m/patch_on_fixed_tree.diff
 git -C /repo worktree add -q --detach $wt HEAD || exit 3
 if git -C $wt apply $patch 2>/dev/null; then
+  # the evidence file belongs to runs on /repo itself: keep it
+  cp /verif/evidence/$p.json /tmp/try.ev.$$ 2>/dev/null
   VERIF_REPO=$wt timeout 1500 /verif/check $p quick > /tmp/try.$$ 2>&1; rc=$?
+  [ -f /tmp/try.ev.$$ ] && mv /tmp/try.ev.$$ /verif/evidence/$p.json
   labels=$(grep -o "label=[^ ]*" /tmp/try.$$ | sort -u | head -3 | tr '\n' ' ')
   echo "$m via $p: exit=$rc $labels $(grep -c INCONCLUSIVE /tmp/try.$$ | sed 's/^/inconclusive-blocks=/')"
   rm -f /tmp/try.$$
